@@ -25,7 +25,24 @@
 (*        `for metric in varz.keys()` advances -- and raises RuntimeError  *)
 (*        if a metric was first recorded while the aggregator slept (quirk *)
 (*        kept as it is; outside C18, nothing is reported then)            *)
-(* MAX_AGG_AGE (5 minutes) is not modelled: all samples are recent.        *)
+(*   ClockTick(d)  the low-resolution clock (LOW_RESOLUTION_TIME_SOURCE.now) *)
+(*        advances by d units; one unit stands for MAX_AGG_AGE / MaxAge     *)
+(*        seconds.  A _SampleSet stamps last_update = now when it *accepts*  *)
+(*        a sample (and at creation); Aggregate reads `now` once at its      *)
+(*        start and leaves out every reservoir with now - last_update >=     *)
+(*        MAX_AGG_AGE: it is not counted (count, pct_sample) and gives no    *)
+(*        values; a key with no live reservoir reports zeros with count 0.   *)
+(*        The clock does not tick while Aggregate sleeps (sleep(0) takes no  *)
+(*        time in the harness).                                             *)
+(* Design = "tree"    the code as it is: every recording looks its series    *)
+(*                    up in VARZ_DATA; stale reservoirs stay in the dict.    *)
+(*          "expire"  variant: Aggregate also deletes the stale reservoirs   *)
+(*                    (the next sample creates a new one) -- C18 holds.      *)
+(*          "orphan"  variant: as "expire", and the long-lived bound holder  *)
+(*                    of a source (object id 0) looks its reservoir up once  *)
+(*                    and samples straight into it afterwards: after an      *)
+(*                    expiry it keeps sampling into a reservoir VARZ_DATA no *)
+(*                    longer shows (counterexample generator, C18.oneSeries) *)
 (* The property-level machine VarzAbs runs in lock-step on ghost variables; *)
 (* `viols` collects every C18 clause an aggregate entry breaks.            *)
 (***************************************************************************)
@@ -40,23 +57,32 @@ CONSTANTS Kinds,       \* sequence of metric kinds (metric id = position)
           MaxOps,      \* length of the update sequence
           Sels,        \* key selectors passed to Aggregate
           SourceEq,    \* does Source define __eq__ consistently with __hash__
-          Interleave   \* may updates land while the aggregator sleeps
+          Interleave,  \* may updates land while the aggregator sleeps
+          MaxAge,      \* VarzAggregator.MAX_AGG_AGE in clock units
+          MaxNow,      \* the clock stops at MaxNow (0: time stands still)
+          Ticks,       \* clock steps
+          Design       \* "tree" | "expire" | "orphan"
 
 VARIABLES mkeys,   \* keys of VARZ_DATA in insertion order (sequence of metric ids)
           vdata,   \* metric id -> set of dict entries [k |-> object, v |-> value]
           nops,    \* updates so far
-          agg,     \* the Aggregate greenlet: [on, sel, pos, n0, out]
+          agg,     \* the Aggregate greenlet: [on, sel, pos, n0, now0, out]
           ret,     \* what the last Aggregate call returned (history only)
+          now,     \* LOW_RESOLUTION_TIME_SOURCE.now
+          held,    \* "orphan" design: metric -> tuple -> what the bound holder of object 0 remembers
           viols    \* ghost: C18 clauses broken so far
 
-ivars == <<mkeys, vdata, nops, agg, ret>>
+ivars == <<mkeys, vdata, nops, agg, ret, now, held>>
 vars == <<ivars, avars, viols>>
-View == <<mkeys, vdata, nops, agg, avars, viols>>
+View == <<mkeys, vdata, nops, agg, now, held, avars, viols>>
+
+ASSUME Design \in {"tree", "expire", "orphan"} /\ (Design # "tree" => SourceEq)
 
 M == DOMAIN Kinds
 Scale == 1000
-Zero == [n |-> 0, data |-> <<>>, i |-> 0]      \* int 0 / a new _SampleSet
-AggOff == [on |-> FALSE, sel |-> "none", pos |-> 0, n0 |-> 0, out |-> <<>>]
+Zero == [n |-> 0, data |-> <<>>, i |-> 0, lu |-> 0]      \* int 0 / a new _SampleSet (stamped by its first sample)
+AggOff == [on |-> FALSE, sel |-> "none", pos |-> 0, n0 |-> 0, now0 |-> 0, out |-> <<>>]
+NoHold == [has |-> FALSE, live |-> FALSE, r |-> Zero]   \* has: looked up; live: its reservoir is the one in VARZ_DATA
 RangeOf(s) == {s[i] : i \in DOMAIN s}
 
 \* ---- dict keyed by Source objects ----------------------------------------------
@@ -75,10 +101,10 @@ Store(m, o, F(_)) ==
 Touch(m) == mkeys' = IF m \in RangeOf(mkeys) THEN mkeys ELSE Append(mkeys, m)
 CanUpdate == nops < MaxOps /\ (Interleave \/ ~agg.on)
 
-\* _SampleSet.Sample: a deque(maxlen = Cap)
+\* _SampleSet.Sample: a deque(maxlen = Cap); an accepted sample stamps last_update
 SampleInto(r, v, keep) ==
-  IF r.i < Cap THEN [r EXCEPT !.data = Append(@, v), !.i = @ + 1]
-  ELSE IF keep THEN [r EXCEPT !.data = Append(IF Len(@) >= Cap THEN Tail(@) ELSE @, v), !.i = @ + 1]
+  IF r.i < Cap THEN [r EXCEPT !.data = Append(@, v), !.i = @ + 1, !.lu = now]
+  ELSE IF keep THEN [r EXCEPT !.data = Append(IF Len(@) >= Cap THEN Tail(@) ELSE @, v), !.i = @ + 1, !.lu = now]
   ELSE [r EXCEPT !.i = @ + 1]
 
 DoInc(m, t, fresh, amt) ==
@@ -86,24 +112,44 @@ DoInc(m, t, fresh, amt) ==
   /\ vdata' = [vdata EXCEPT ![m] = Store(m, Obj(m, t, fresh), LAMBDA v : [v EXCEPT !.n = @ + amt])]
   /\ Touch(m) /\ nops' = nops + 1
   /\ IncUpd(m, t, amt)
-  /\ UNCHANGED <<agg, ret, viols>>
+  /\ UNCHANGED <<agg, ret, now, held, viols>>
 
 DoSet(m, t, fresh, val) ==
   /\ CanUpdate /\ Kinds[m] = "gauge"
   /\ vdata' = [vdata EXCEPT ![m] = Store(m, Obj(m, t, fresh), LAMBDA v : [v EXCEPT !.n = val])]
   /\ Touch(m) /\ nops' = nops + 1
   /\ SetUpd(m, t, val)
-  /\ UNCHANGED <<agg, ret, viols>>
+  /\ UNCHANGED <<agg, ret, now, held, viols>>
 
+\* RecordPercentileSample, or (design "orphan", the holder of object 0) VarzMetric._Sample.  room / took are
+\* what the harness observes of VARZ_DATA before and after the call (see VarzAbs.Sample).
 DoSample(m, t, fresh, val, keep) ==
   /\ CanUpdate /\ Kinds[m] \in PctKinds
   /\ LET o == Obj(m, t, fresh)
-         full == \E e \in Find(m, o) : e.v.i >= Cap
-     IN /\ (~keep => full)         \* random.random() is only consulted on a full reservoir
-        /\ vdata' = [vdata EXCEPT ![m] = Store(m, o, LAMBDA v : SampleInto(v, val, keep))]
+         pre == Find(m, o)
+         bound == Design = "orphan" /\ ~fresh
+         orphaned == bound /\ held[m][t].has /\ ~held[m][t].live
+         target == IF orphaned THEN held[m][t].r
+                   ELSE IF pre = {} THEN Zero ELSE (CHOOSE e \in pre : TRUE).v
+         vd == IF orphaned THEN vdata[m] ELSE Store(m, o, LAMBDA v : SampleInto(v, val, keep))
+         post == {e \in vd : KeyEq(e.k, o)}
+         room == IF pre = {} \/ (\E e \in pre : Len(e.v.data) < Cap) THEN 1 ELSE 0
+         took == IF post # {} /\ post # pre THEN 1 ELSE 0
+         chk == SampleCheck(m, t, val, room, took)
+     IN /\ (~keep => target.i >= Cap)         \* random.random() is only consulted on a full reservoir
+        /\ vdata' = [vdata EXCEPT ![m] = vd]
+        /\ held' = IF ~bound THEN held
+                   ELSE IF orphaned THEN [held EXCEPT ![m][t].r = SampleInto(target, val, keep)]
+                   ELSE [held EXCEPT ![m][t] = [has |-> TRUE, live |-> TRUE, r |-> Zero]]
+        /\ viols' = viols \cup (IF chk = "ok" THEN {} ELSE {chk})
   /\ Touch(m) /\ nops' = nops + 1
   /\ SampleUpd(m, t, val)
-  /\ UNCHANGED <<agg, ret, viols>>
+  /\ UNCHANGED <<agg, ret, now>>
+
+ClockTick(d) ==
+  /\ ~agg.on /\ now + d <= MaxNow
+  /\ now' = now + d
+  /\ UNCHANGED <<mkeys, vdata, nops, agg, ret, held, avars, viols>>
 
 \* ---- VarzAggregator ----------------------------------------------------------------
 Pcts == <<5000, 9000, 9900, 9990, 9999>>       \* VARZ_PERCENTILES in 1/10000
@@ -130,12 +176,15 @@ Round1000(x) == (x + 5) \div 10                   \* 1/10000 units -> 1/1000, mo
 Ents(m, sel, key) == {e \in vdata[m] : KeyOf(sel, e.k.t) = key}
 KeysOf(m, sel) == {KeyOf(sel, e.k.t) : e \in vdata[m]}
 
+Stale(m, e) == Kinds[m] \in PctKinds /\ agg.now0 - e.v.lu >= MaxAge
+
 AggEntry(m, sel, key) ==
   LET E == Ents(m, sel, key)
-      cnt == Cardinality(E)
+      L == {e \in E : ~Stale(m, e)}          \* reservoirs younger than MAX_AGG_AGE
+      cnt == Cardinality(L)
   IN IF Kinds[m] \in PctKinds
-     THEN LET vals == SortSeq(FoldSet(LAMBDA e, acc : acc \o Down(e.v.data, Len(e.v.data) \div cnt), <<>>, E), <)
-              kept == UNION {RangeOf(e.v.data) : e \in E}
+     THEN LET vals == SortSeq(FoldSet(LAMBDA e, acc : acc \o Down(e.v.data, Len(e.v.data) \div cnt), <<>>, L), <)
+              kept == UNION {RangeOf(e.v.data) : e \in E}   \* what VARZ_DATA retains for the key (as the harness reads it)
           IN [key |-> key, total |-> 0, cnt |-> cnt,
               pcts |-> [i \in 1..5 |-> Round1000(Pct(vals, Pcts[i]))],
               lo |-> IF kept = {} THEN -1 ELSE Min(kept), hi |-> IF kept = {} THEN -1 ELSE Max(kept)]
@@ -153,32 +202,46 @@ AggBegin(sel) ==
   /\ IF mkeys = <<>>
      THEN /\ ret' = [ok |-> TRUE, sel |-> sel, out |-> <<>>]
           /\ UNCHANGED agg
-     ELSE /\ agg' = [on |-> TRUE, sel |-> sel, pos |-> 1, n0 |-> Len(mkeys), out |-> <<>>]
+     ELSE /\ agg' = [on |-> TRUE, sel |-> sel, pos |-> 1, n0 |-> Len(mkeys), now0 |-> now, out |-> <<>>]
           /\ UNCHANGED ret
-  /\ UNCHANGED <<mkeys, vdata, nops, avars, viols>>
+  /\ UNCHANGED <<mkeys, vdata, nops, now, held, avars, viols>>
 
 \* one metric is aggregated; then the iterator advances
 AggWork == LET m == mkeys[agg.pos] IN [m |-> m, res |-> AggOf(m, agg.sel)]
+
+\* designs "expire" / "orphan": the stale reservoirs of the metric just aggregated are deleted; a bound
+\* holder that remembered one of them keeps it (and nothing tells it)
+Expire ==
+  LET m == mkeys[agg.pos]
+      gone == IF Design = "tree" THEN {} ELSE {e \in vdata[m] : Stale(m, e)}
+  IN /\ vdata' = [vdata EXCEPT ![m] = @ \ gone]
+     /\ held' = [held EXCEPT ![m] = [t \in Tuples |->
+                   IF @[t].has /\ @[t].live /\ \E e \in gone : e.k.t = t
+                   THEN [has |-> TRUE, live |-> FALSE, r |-> (CHOOSE e \in gone : e.k.t = t).v]
+                   ELSE @[t]]]
 
 AggStepNext ==
   /\ agg.on /\ Len(mkeys) = agg.n0 /\ agg.pos < agg.n0
   /\ agg' = [agg EXCEPT !.pos = @ + 1, !.out = Append(@, AggWork)]
   /\ viols' = viols \cup Broken(AggWork.m, agg.sel, AggWork.res)
-  /\ UNCHANGED <<mkeys, vdata, nops, ret, avars>>
+  /\ Expire
+  /\ UNCHANGED <<mkeys, nops, ret, now, avars>>
 
 AggStepDone ==
   /\ agg.on /\ Len(mkeys) = agg.n0 /\ agg.pos = agg.n0
   /\ agg' = AggOff
   /\ ret' = [ok |-> TRUE, sel |-> agg.sel, out |-> Append(agg.out, AggWork)]
   /\ viols' = viols \cup Broken(AggWork.m, agg.sel, AggWork.res)
-  /\ UNCHANGED <<mkeys, vdata, nops, avars>>
+  /\ Expire
+  /\ UNCHANGED <<mkeys, nops, now, avars>>
 
 AggStepAbort ==   \* RuntimeError: dictionary changed size during iteration
   /\ agg.on /\ Len(mkeys) # agg.n0
   /\ agg' = AggOff
   /\ ret' = [ok |-> FALSE, sel |-> agg.sel, out |-> <<>>]
   /\ viols' = viols \cup Broken(AggWork.m, agg.sel, AggWork.res)
-  /\ UNCHANGED <<mkeys, vdata, nops, avars>>
+  /\ Expire
+  /\ UNCHANGED <<mkeys, nops, now, avars>>
 
 Init ==
   /\ mkeys = <<>>
@@ -186,6 +249,8 @@ Init ==
   /\ nops = 0
   /\ agg = AggOff
   /\ ret = [ok |-> TRUE, sel |-> "none", out |-> <<>>]
+  /\ now = 0
+  /\ held = [m \in M |-> [t \in Tuples |-> NoHold]]
   /\ viols = {}
   /\ AInit(Kinds, Scale)
 
@@ -195,6 +260,7 @@ Next ==
        \/ \E v \in GVals : DoSet(m, t, fresh, v)
        \/ \E v \in SVals, keep \in BOOLEAN : DoSample(m, t, fresh, v, keep)
   \/ \E sel \in Sels : AggBegin(sel)
+  \/ \E d \in Ticks : ClockTick(d)
   \/ AggStepNext \/ AggStepDone \/ AggStepAbort
 
 Spec == Init /\ [][Next]_vars
@@ -208,9 +274,12 @@ NoSumViolation == "C18.sum" \notin viols
 
 Structural ==
   /\ \A m \in M : \A e1, e2 \in vdata[m] : e1 # e2 => ~KeyEq(e1.k, e2.k)          \* a dict
-  /\ RangeOf(mkeys) = {m \in M : vdata[m] # {}} /\ Len(mkeys) = Cardinality(RangeOf(mkeys))
+  /\ Design = "tree" => RangeOf(mkeys) = {m \in M : vdata[m] # {}}
+  /\ Len(mkeys) = Cardinality(RangeOf(mkeys))
   /\ \A m \in M : \A e \in vdata[m] : Len(e.v.data) <= Cap /\ Len(e.v.data) <= e.v.i
-  /\ \A m \in M : {e.k.t : e \in vdata[m]} = DOMAIN adata[m]                      \* nothing lost
+  /\ Design = "tree" => \A m \in M : {e.k.t : e \in vdata[m]} = DOMAIN adata[m]     \* nothing lost
+  /\ \A m \in M : {e.k.t : e \in vdata[m]} \subseteq DOMAIN adata[m]
+  /\ \A m \in M : \A e \in vdata[m] : e.v.lu <= now
   /\ agg.on => agg.pos \in 1..agg.n0 /\ agg.n0 <= Len(mkeys)
 
 \* ---- constant values for the configurations (cfg files cannot write tuples) -------------
@@ -218,6 +287,8 @@ K_cg == <<"counter", "gauge">>
 K_ct == <<"rate", "timer">>
 K_gt == <<"gauge", "avgrate">>
 K_cgt == <<"counter", "gauge", "timer">>
+K_t == <<"timer">>
+K_tc == <<"timer", "counter">>
 T2 == {<<1, 1, 1, 0>>, <<1, 1, 2, 0>>}
 T3 == {<<1, 1, 1, 0>>, <<1, 1, 2, 0>>, <<0, 2, 0, 1>>}
 T4 == T3 \cup {<<2, 1, 0, 0>>}
